@@ -94,3 +94,33 @@ class adj_list_roundtrip:
     }
     options = dict(no_concrete=True)
     props = ["C13"]
+
+
+# ------------------------------------------------------------------------------------------- C06: the edge set an adjacency-list tokenizer lists
+MT = "maze_dataset/tokenization/maze_tokenizer.py"
+_MC = "maze.connection_list"
+_MR, _MCc = f"{_MC}.shape[1]", f"{_MC}.shape[2]"
+
+
+def _sel(d, x, y):
+    """the lattice edge stored at cell (d, x, y) is inside the grid and belongs to the selected subset (connections, or - walls=True - walls)"""
+    return f"((x + ite({d} == 0, 1, 0) < {_MR}) and (y + ite({d} == 1, 1, 0) < {_MCc}) and ({_MC}[{d}, {x}, {y}] != self.walls))"
+
+
+@contract(MT, "EdgeSubsets.ConnectionEdges._get_edges")
+class connection_edges_get_edges:
+    """C06: `the adjacency region lists precisely the edge set selected by the tokenizer (only connections, or only walls)`: every row is a lattice edge inside
+    the grid whose connection bit is the selected kind, lesser endpoint first; every such edge is some row; no edge is two rows"""
+    params = dict(self=T.RecT("ConnectionEdges", walls=T.OneOf(T.Const(False), T.Const(True))), maze=T.RecT("LatticeMaze", connection_list=CONN))
+    requires = [f"{_MR} >= 1", f"{_MCc} >= 1", f"{_MR} <= 127", f"{_MCc} <= 127", "wf(maze)"]
+    ensures = {
+        "C06.edges.selected": "forall(lambda k: exists(lambda d: (0 <= result[k, 0, 0] and 0 <= result[k, 0, 1] and result[k, 1, 0] == result[k, 0, 0] + ite(d == 0, 1, 0)"
+        " and result[k, 1, 1] == result[k, 0, 1] + ite(d == 1, 1, 0) and "
+        + _sel("d", "result[k, 0, 0]", "result[k, 0, 1]").replace("(x +", "(result[k, 0, 0] +").replace("(y +", "(result[k, 0, 1] +") + "), (0, 2)), (0, result.shape[0]))",
+        "C06.edges.all": "forall(lambda d, x, y: implies(" + _sel("d", "x", "y") + ", exists(lambda k: " + _pair_at("result", "k", "d", "x", "y", oriented=True)
+        + f", (0, result.shape[0]))), (0, 2), (0, {_MR}), (0, {_MCc}))",
+        "C06.edges.once": "forall(lambda a, b: implies(a != b, not (result[a, 0, 0] == result[b, 0, 0] and result[a, 0, 1] == result[b, 0, 1] and result[a, 1, 0] == result[b, 1, 0] and result[a, 1, 1] == result[b, 1, 1])),"
+        " (0, result.shape[0]), (0, result.shape[0]))",
+    }
+    result = T.GridT("int", [None, 2, 2])
+    props = ["C06"]
